@@ -576,6 +576,20 @@ impl Store {
 
     #[tracing::instrument(skip(self))]
     pub fn insert_frame(&self, frame: &Frame) -> Result<(), crate::error::Error> {
+        // An import may name an id that is already stored. The frame is stored as is, so the
+        // frame it replaces must leave nothing behind: its index entries (they differ when the
+        // topic or the context differ) and, if it registered a context, its registry entry.
+        let replaced = self
+            .get(&frame.id)
+            .filter(|old| old.topic != frame.topic || old.context_id != frame.context_id);
+        self.store_frame(frame, replaced.as_ref())
+    }
+
+    fn store_frame(
+        &self,
+        frame: &Frame,
+        replaced: Option<&Frame>,
+    ) -> Result<(), crate::error::Error> {
         let encoded: Vec<u8> = serde_json::to_vec(&frame).unwrap();
 
         // Never store a frame whose own encoding cannot be read back (a meta nested up to the
@@ -589,6 +603,10 @@ impl Store {
         let topic_key = idx_topic_key_from_frame(frame)?;
 
         let mut batch = self.keyspace.batch();
+        if let Some(old) = replaced {
+            batch.remove(&self.idx_topic, idx_topic_key_from_frame(old)?);
+            batch.remove(&self.idx_context, idx_context_key_from_frame(old));
+        }
         batch.insert(&self.frame_partition, frame.id.as_bytes(), encoded);
         batch.insert(&self.idx_topic, topic_key, b"");
         batch.insert(&self.idx_context, idx_context_key_from_frame(frame), b"");
@@ -601,6 +619,8 @@ impl Store {
         // the context registry is a function of the stored frames.
         if frame.topic == "xs.context" && frame.context_id == ZERO_CONTEXT {
             self.contexts.write().unwrap().insert(frame.id);
+        } else if replaced.is_some() {
+            self.contexts.write().unwrap().remove(&frame.id);
         }
         #[cfg(feature = "verif")]
         self.verif.point("commit.post", Some(frame));
@@ -639,7 +659,8 @@ impl Store {
 
         // only store the frame if it's not ephemeral
         if frame.ttl != Some(TTL::Ephemeral) {
-            self.insert_frame(&frame)?;
+            // the id was assigned above: there is nothing it could replace
+            self.store_frame(&frame, None)?;
 
             // If this is a Head TTL, schedule a gc task
             if let Some(TTL::Head(n)) = frame.ttl {
